@@ -84,7 +84,7 @@ def _process_item(kind, head, sub, meta, occ=None):
         if len(t) != 2:
             raise ExtractError(f"{what}: fragment needs two anchors")
         body = src[f["body_open"]:f["end"]]
-        i0 = _find_occ(body, t[0], None, what)
+        i0 = _find_occ(body, t[0], occ, what)
         i1 = body.find(t[1], i0)
         if i1 < 0 or body.count(t[1], i0) < 1:
             raise ExtractError(f"{what}: fragment end anchor `{t[1]}` not found")
